@@ -56,6 +56,17 @@ pub enum Event {
     },
     /// The global type registry mutex is about to be locked
     TypeRegistryLock,
+    /// A [`sync::Mutex`] is about to be locked
+    MutexLock {
+        /// Address of the mutex
+        mutex: usize,
+        /// The probe for this mutex type, see [`mutex_is_free`]
+        probe: usize,
+        /// File of the call site
+        file: &'static str,
+        /// Line of the call site
+        line: u32,
+    },
     /// A handle to a function in the machine code of a module was created
     CodeLive {
         /// Module identifier
@@ -117,6 +128,54 @@ pub fn ptr_use(ptr: usize, site: &'static str) {
 pub fn slice_use(buf: usize, elem_size: usize, site: &'static str) {
     emit(Event::PtrMade { ptr: buf, buf, elem_size });
     emit(Event::PtrUse { ptr: buf, site })
+}
+
+/// Is the mutex of an [`Event::MutexLock`] free?
+///
+/// # Safety
+///
+/// `mutex` and `probe` must come from the same event and the value that owns
+/// the mutex must still be alive.
+pub unsafe fn mutex_is_free(mutex: usize, probe: usize) -> bool {
+    // SAFETY: `probe` was made from a `fn(usize) -> bool` in `sync::Mutex::lock`
+    let f = unsafe { std::mem::transmute::<usize, fn(usize) -> bool>(probe) };
+    f(mutex)
+}
+
+/// Drop-in replacements for `std::sync` types that report to the sink
+pub mod sync {
+    use std::sync::{LockResult, MutexGuard};
+
+    /// A `std::sync::Mutex` whose `lock` is preceded by an
+    /// [`Event::MutexLock`](super::Event::MutexLock)
+    #[derive(Debug, Default)]
+    pub struct Mutex<T>(std::sync::Mutex<T>);
+
+    impl<T> Mutex<T> {
+        /// See `std::sync::Mutex::new`
+        pub const fn new(t: T) -> Self {
+            Self(std::sync::Mutex::new(t))
+        }
+
+        /// See `std::sync::Mutex::lock`
+        #[track_caller]
+        pub fn lock(&self) -> LockResult<MutexGuard<'_, T>> {
+            fn probe<T>(mutex: usize) -> bool {
+                // SAFETY: the address comes from a live `Mutex<T>` (see
+                // `mutex_is_free`)
+                let m = unsafe { &*(mutex as *const std::sync::Mutex<T>) };
+                m.try_lock().is_ok()
+            }
+            let loc = std::panic::Location::caller();
+            super::emit(super::Event::MutexLock {
+                mutex: &self.0 as *const std::sync::Mutex<T> as usize,
+                probe: probe::<T> as fn(usize) -> bool as usize,
+                file: loc.file(),
+                line: loc.line(),
+            });
+            self.0.lock()
+        }
+    }
 }
 
 /// Is the list mutex at this address (from a [`Event::ListLock`]) free?
